@@ -489,3 +489,22 @@ pub fn vis_neighbour(property: &'static str, vis: Vis) -> ReplCell {
     };
     c
 }
+
+/// A component insertion that the client's deserialization function refuses (an error path of
+/// message application): whatever the client had read for that entity must not end up on
+/// another entity. Only the per-entity confirmed-tick oracle applies; the refused entity and
+/// the rest of that update message are lost by design.
+pub fn refused_value(property: &'static str) -> ReplCell {
+    let mut c = base("refused-value", property);
+    c.cfg.with_f = true;
+    c.init = vec![Op::Spawn(0, M_A), Op::Spawn(1, M_A), Op::Spawn(2, AB)];
+    c.alphabet = vec![Op::Nop, Op::InsPoison(0), Op::InsPoison(1), Op::Ins(0, TB), Op::Mut(0, TA), Op::Mut(1, TA), Op::Mut(2, TB)];
+    c.env = Env {
+        hold_acks: false,
+        hold_updates: 1,
+        mutations: MutMenu::Hold,
+        leftover_choice: false,
+        lossy: false,
+    };
+    c
+}
